@@ -42,7 +42,63 @@ def run_c33(chk, F, tier):
                   % (b.id.split("::")[-1], ["%s:%s" % (h[1].split("::")[-1], h[2]) for h in hs[:2]]), b.loc(),
                   witness={"sources": [list(h) for h in hs[:4]]},
                   sample={"rule": "R33", "fn": b.id.split("::")[-1], "verdict": "choice independent of hash order"})
-    chk.explanation = "Hash-order taint of the return value of every module lookup function."
+    # R33b: a module node is pruned only when it neither holds a file nor has children
+    import cfgutil
+    import guards
+    chk.rule("R33b", "LuaModuleIndex::remove deletes a node of the module tree only under `file_ids.is_empty() && children.is_empty()`: a package node "
+                     "that is also a module (pkg/init.lua next to pkg/sub.lua) must survive the removal of its last submodule")
+    rm = next((b for k, b in F.bodies.items() if "LuaModuleIndex as " in k and k.endswith("LuaIndex>::remove")), None)
+    if rm is None:
+        raise RuleBroken("LuaModuleIndex::remove not found")
+    succ = rm.succ_map()
+    idom = cfgutil.dominators(succ, 0)
+
+    def field_of_receiver(b, c):
+        """name of the struct field whose emptiness is tested"""
+        l = c["a"][0][1][0] if c["a"] and c["a"][0][0] in ("c", "m") else None
+        for blk in b.blocks:
+            for st in blk[1]:
+                if st[0] == "a" and st[1] == [l] and st[2][0] == "ref":
+                    fs = [e[2] for e in st[2][2][1:] if isinstance(e, list) and e[0] == "f"]
+                    if fs:
+                        return fs[-1]
+        return None
+    empties = {}
+    for bb, c in rm.calls():
+        if (c.get("r") or c.get("f") or "").endswith("::is_empty"):
+            f = field_of_receiver(rm, c)
+            br = guards.bool_branch(rm, bb)
+            if f and br:
+                empties.setdefault(f, []).append(br[0])
+    nrem = 0
+    for bb, c in rm.calls():
+        n = c.get("r") or c.get("f") or ""
+        if n.endswith("::remove") and c["a"] and "HashMap<emmylua_code_analysis::db_index::module::module_node::ModuleNodeId," in rm.ty_str_op(c["a"][0]):
+            nrem += 1
+            need = {}
+            for f in ("file_ids", "children"):
+                need[f] = any(t == bb or cfgutil.dominates(idom, t, bb) for t in empties.get(f, []))
+            chk.check(all(need.values()), "R33b", "prune#%d" % nrem,
+                      "LuaModuleIndex::remove deletes a module-tree node without having tested %s for emptiness on that path: a node that still %s is "
+                      "dropped, and `require` of the package (or of its remaining submodules) no longer resolves although the files are there"
+                      % ([f for f, v in need.items() if not v], "holds a file" if not need["file_ids"] else "has children"), rm.loc(c["l"]),
+                      sample={"rule": "R33b", "site": nrem, "verdict": "both emptiness tests dominate the deletion"})
+    chk.floor("node deletions in LuaModuleIndex::remove", nrem, 1)
+
+    # R33c: workspace roots are matched by path components
+    chk.rule("R33c", "extract_module_path strips the workspace root with Path::strip_prefix (component-wise), never with a string prefix test: "
+                     "`/ws/lib` must not match `/ws/lib_old/x.lua`")
+    em = F.bodies.get(MI + "::extract_module_path")
+    if em is None:
+        raise RuleBroken("extract_module_path not found")
+    scope = [em] + [b for k, b in F.bodies.items() if k.startswith(em.id + "::{closure")]
+    path_strip = sum(1 for b in scope for _, c in b.calls() if (c.get("r") or c.get("f") or "").endswith("std::path::Path::strip_prefix") or (c.get("r") or c.get("f") or "").endswith("path::Path::strip_prefix"))
+    str_strip = [(b, c) for b in scope for _, c in b.calls() if (c.get("r") or c.get("f") or "").endswith(("str>::strip_prefix", "<impl str>::strip_prefix", "<impl str>::starts_with", "str::strip_prefix", "str::starts_with"))]
+    chk.check(path_strip >= 1 and not str_strip, "R33c", "root-match",
+              "extract_module_path matches a workspace root with a string prefix operation (%s): a sibling directory whose name merely starts with the "
+              "root's name is taken for part of that workspace and gets a bogus module path" % [((c.get("r") or c.get("f") or "").split("::")[-1]) for _, c in str_strip][:2],
+              em.loc(str_strip[0][1]["l"] if str_strip else None), sample={"rule": "R33c", "verdict": "Path::strip_prefix only"})
+    chk.explanation = "Hash-order taint of the return value of every module lookup function; dominance of both emptiness tests over node deletion; component-wise root matching."
 
 
 def run_c35(chk, F, tier):
